@@ -55,6 +55,10 @@ func vfSynth(a, e vfTup, name string) *http.Request {
 	}
 	req := httptest.NewRequest(method, "/connectrpc.conformance.v1.ConformanceService/Unary", strings.NewReader(""))
 	req.ProtoMajor = a.Ver
+	if a.Get && a.Ver == 3 {
+		// quic-go's HTTP/3 server does not know the length of a body-less request up front
+		req.ContentLength = -1
+	}
 	h := req.Header
 	if name != "" {
 		h.Set("X-Test-Case-Name", name)
@@ -236,7 +240,7 @@ func vfCompareAspects(rep *verifkit.Report, where string, a, e vfTup, name strin
 // TestVerifC12Matrix: full expected x actual matrix through the real
 // referenceServerChecks middleware (synthesised requests).
 func TestVerifC12Matrix(t *testing.T) {
-	rep := verifkit.Begin("C12", "matrix", "every realisable actual tuple (3 HTTP versions x GET/POST x 3 protocols x 2 codecs x 6 compressions x TLS x client cert; GET only with Connect unary, cert only with TLS; Connect streaming content-types too) x all 864 expected tuples; distinct = (actual, expected) pairs")
+	rep := verifkit.Begin("C12", "matrix", "every realisable actual tuple (3 HTTP versions x GET/POST x 3 protocols x 2 codecs x 6 compressions x TLS x client cert; GET only with Connect unary, cert only with TLS; Connect streaming content-types too) x all 864 expected tuples; feedback is compared both after the request and at the moment the RPC handler is entered (a request that never completes must have been reported by then); distinct = (actual, expected) pairs")
 	defer rep.Write()
 	acts, exps := vfAllTuples(true), vfAllTuples(false)
 	for _, a := range acts {
@@ -251,7 +255,11 @@ func TestVerifC12Matrix(t *testing.T) {
 				rep.Count(fmt.Sprintf("spelling_%d", vfSpelling), 1)
 				p := &internal.SimplePrinter{}
 				called := false
-				h := referenceServerChecks(http.HandlerFunc(func(http.ResponseWriter, *http.Request) { called = true }), p)
+				var atEntry []string // what had been reported when the RPC handler was entered: a request that stays open (or never ends) has been reported by then
+				h := referenceServerChecks(http.HandlerFunc(func(http.ResponseWriter, *http.Request) {
+					called = true
+					atEntry = append([]string{}, p.Messages...)
+				}), p)
 				rep.InFlight(map[string]any{"actual": a, "expected": e})
 				if pn := verifkit.Catch(func() { h(httptest.NewRecorder(), vfSynth(a, e, "Suite/T")) }); pn != nil {
 					rep.Violation("checks/panic/"+pn.Site, pn.Value, map[string]any{"actual": a, "expected": e, "stack": pn.Stack})
@@ -263,6 +271,10 @@ func TestVerifC12Matrix(t *testing.T) {
 					rep.Count("deviating_pairs", 1)
 				}
 				vfCompareAspects(rep, "matrix", a, e, "Suite/T", p.Messages, called, nil)
+				if called && len(vfWantAspects(a, e)) > 0 {
+					vfCompareAspects(rep, "matrix-while-the-request-is-open", a, e, "Suite/T", atEntry, called, nil)
+					rep.Count("deviating_pairs_checked_while_open", 1)
+				}
 			}
 		}
 	}
